@@ -7,7 +7,7 @@ R3  one-variable arm of bounds(lin) takes the sign of the coefficient into accou
 """
 from ..expr import LocalEnv, canon, show
 from ..facts import AnalysisBroken, short, src, walk
-from ..tables import enum_paths
+from ..tables import enum_paths, path_literals, eq_test, norm_literal
 from .. import sib_dl, dual
 
 RELS = {'new_lt': '<', 'new_leq': '<=', 'new_geq': '>=', 'new_gt': '>'}
@@ -42,20 +42,29 @@ class Arm:
         env = self.env
         cn = lambda n: canon(n, env, subst=False)
         it_idx = None
+        # the arity of the path: what its tests of expr.vars.size() against constants say (switch arms, an if chain, early returns - one thing)
+        SIZE = lambda t: isinstance(t, tuple) and t[0] == 'mcall' and t[1].endswith('::size') and t[2] == ('.', 'expr', 'vars')
+        L = path_literals(self.p, cn)
+        for c in L or ():
+            if c[0] == 'if':
+                ek = eq_test(c[1])
+                if ek is not None and SIZE(ek[0]):
+                    if c[2]:
+                        self.arity = ek[1][1] if isinstance(ek[1], tuple) else ek[1]
+                    elif self.arity is None:
+                        self.arity = 'default'
+            elif c[0] == 'switch' and SIZE(c[1]):
+                self.arity = 'multi'
         for c in self.p.conds:
             kind, node, pol = c
             if kind == 'switch':
-                t = cn(node)
-                if isinstance(t, tuple) and t[0] == 'mcall' and t[1].endswith('::size') and t[2] == ('.', 'expr', 'vars'):
-                    labs = [l for l in pol]
-                    if len(labs) == 1 and labs[0][0] == 'case':
-                        self.arity = labs[0][1]
-                    elif any(l[0] == 'default' for l in labs):
-                        self.arity = 'default'
-                    else:
-                        self.arity = 'multi'
+                continue
             else:
                 t = cn(node)
+                tt, _pp = norm_literal(t, pol)
+                ek = eq_test(tt)
+                if ek is not None and SIZE(ek[0]):
+                    continue            # a test of the arity: read above
                 if isinstance(t, tuple) and t[0] in ('<', '<=') and len(t) == 3:
                     a, b = t[1], t[2]
                     if self._is_first_coef(a) and b == 'smt::rational::ZERO':
